@@ -294,6 +294,8 @@ func GoEq(a, b *ty.Val) bool {
 		return ok1 && ok2 && ok3 && ok4 && x == y && x2 == y2
 	case ty.VStr:
 		return string(a.Str) == string(b.Str)
+	case ty.VNil:
+		return true // two nil pointer keys are one key (non-nil pointer templates become distinct objects)
 	case ty.VArr, ty.VStruct:
 		if len(a.Elems) != len(b.Elems) {
 			return false
